@@ -312,7 +312,7 @@ func (p *polling) DoWrite(ctx *types.HttpContext, data types.BufferInterface, op
 		return
 	}
 
-	encoding := utils.Contains(ctx.Headers().Peek("Accept-Encoding"), []string{"gzip", "deflate", "br", "zstd"})
+	encoding := acceptedEncoding(ctx.Headers().Peek("Accept-Encoding"), []string{"gzip", "deflate", "br", "zstd"})
 	if encoding == "" {
 		respond(data, strconv.Itoa(data.Len()))
 		return
@@ -330,6 +330,27 @@ func (p *polling) DoWrite(ctx *types.HttpContext, data types.BufferInterface, op
 
 	headers.Set("Content-Encoding", encoding)
 	respond(buf, strconv.Itoa(buf.Len()))
+}
+
+// acceptedEncoding returns the first of the supported codings that the
+// Accept-Encoding header names as a token with a non-zero quality value.
+func acceptedEncoding(header string, supported []string) string {
+	for _, coding := range supported {
+		for _, part := range strings.Split(header, ",") {
+			token, params, _ := strings.Cut(part, ";")
+			if !strings.EqualFold(strings.TrimSpace(token), coding) {
+				continue
+			}
+			q := strings.TrimSpace(params)
+			if v, ok := strings.CutPrefix(strings.ReplaceAll(q, " ", ""), "q="); ok {
+				if f, err := strconv.ParseFloat(v, 64); err == nil && f == 0 {
+					continue
+				}
+			}
+			return coding
+		}
+	}
+	return ""
 }
 
 // Compresses data.
